@@ -30,7 +30,7 @@ RULE = (
     "(sys.monitoring LINE events inside afkak/) and tracemalloc peak <= 256KiB + 64*(len+decompressed). "
     "non-trivial = (a) a mutation inside a wrapper or a magic-1 message, or a burst > 1 bit; (b) a cut strictly inside a "
     "non-first entry; (c) an input on which the decoder executed >= 10 lines (got past its first length check); distinct = "
-    "distinct (set, mutation) / input. (d) end to end: engine CONS traces (real Consumer + KafkaClient + codec on the simulated "
+    "distinct (set, mutation) / input. (e) enumerated on valid responses: each plausible count field := 250000 combined with each plausible length field := a small negative value (-2..-40); same budget. (d) end to end: engine CONS traces (real Consumer + KafkaClient + codec on the simulated "
     "cluster, buffers 64 B..1 MiB+1, optional maximum, messages of 400 B..4 MiB appended while consuming): after a fetch answer "
     "that holds only part of a message and arrived in time, the next fetch of that run asks for the same offset with a larger "
     "buffer, and the run does not fail with ConsumerFetchSizeTooSmall while the maximum is not reached; non-trivial = the buffer "
@@ -258,6 +258,42 @@ def check_bytes(ctx, sel, data, measure_memory=True):
     return r
 
 
+_NEG = list(range(-2, -41, -1))
+
+
+def hostile_pairs(ctx, sel, raw, max_decodes=2400):
+    """(e) enumerated, structure-aware: every plausible count field of a valid response set to a huge value, combined with every
+    plausible length field set to a small negative one (a length that walks the cursor backwards makes a count-controlled loop
+    consume nothing) - the decoder must still stop within the budget of a short input."""
+    import struct
+
+    n = len(raw)
+    c32 = [p for p in range(0, n - 3) if 0 <= struct.unpack(">i", raw[p:p + 4])[0] <= n - p - 4]
+    c16 = [p for p in range(0, n - 1) if 0 <= struct.unpack(">h", raw[p:p + 2])[0] <= n - p - 2]
+    # prefer fields that really look like a non-zero length/count; keep the enumeration bounded
+    c32.sort(key=lambda p: (struct.unpack(">i", raw[p:p + 4])[0] == 0, p))
+    c16.sort(key=lambda p: (struct.unpack(">h", raw[p:p + 2])[0] == 0, p))
+    counts = c32[:3]
+    lens = [("i", p) for p in c32[:7]] + [("h", p) for p in c16[:5]]
+    done = 0
+    for q in counts:
+        for kind, p in lens:
+            if (kind == "i" and abs(p - q) < 4) or (kind == "h" and -2 < p - q < 4):
+                continue
+            for v in _NEG:
+                if done >= max_decodes:
+                    return done
+                b = bytearray(raw)
+                b[q:q + 4] = struct.pack(">i", 250000)
+                if kind == "i":
+                    b[p:p + 4] = struct.pack(">i", v)
+                else:
+                    b[p:p + 2] = struct.pack(">h", v)
+                check_bytes(ctx, sel, bytes(b), measure_memory=False)
+                done += 1
+    return done
+
+
 def _atheris(ctx, runs, max_len):
     wd = os.path.join(HOME, ".work", "c12", "shard%d" % ctx.shard)
     shutil.rmtree(wd, ignore_errors=True)
@@ -349,6 +385,18 @@ def shard(ctx):
                  sample={"decoder": r["decoder"], "input": data, "mutations": case["muts"], "status": r["status"], "exc": r["exc"], "work_lines": r["work"]})
 
     hyp(ctx, _mut_case, mbody, ctx.n(4000, 120000), offset=1)
+
+    # (e) hostile count x negative-length pairs, enumerated on a few valid responses per shard
+    def pbody(a):
+        name, raw = c05.raw_of(a)
+        if len(raw) > 400:
+            return
+        k = hostile_pairs(ctx, _dec_index(name), raw)
+        ctx.evaluations += max(k - 1, 0)
+        ctx.labels["hostile-count-x-negative-length"] += k
+        ctx.case(key=["pairs", name, raw], nontrivial=k > 0, labels=["pairs"], sample={"decoder": name, "base_len": len(raw), "combinations": k})
+
+    hyp(ctx, c05.VALID_RESPONSE, pbody, ctx.n(16 * 3, 16 * 60), shrink=False, offset=5)
 
     nfuzz = 4 if ctx.tier == "quick" else 16
     if ctx.shard < nfuzz:
